@@ -145,18 +145,30 @@ class MicroPipeline(Scenario):
             hit1, w12_1, w21_1 = H.contact_forces(b1, b2)
             com_before = b1.com
             H.contact_forces(b2, b1)
+            # ... and against a third body in a genuinely different frame: b2 is re-expressed there
+            b3 = micro_body(H, cx, self.args["a"], (PR.RX51213, [0.5, 0.25, -0.25]), 1.0)
+            H.contact_forces(b2, b3)
             v = self.args.get("move", [0.0, 0.0, 0.0625])
             b2.body2origin_[:3, 3] += cx.arr(v)
-            hit3, w12_3, w21_3 = H.contact_forces(b1, b2)
+            hit3, w12_3, w21_3, det3_ = H.contact_forces(b1, b2, return_details=True)
             M1, M2 = inp["M1"], inp["M2"]
             # after the second call b2 lives in b1's frame (= M2's frame after the first call): moving its origin by v
             # in the world moves the body by v
             f1 = micro_body(H, cx, self.args["a"], M1, self.args.get("E1", 1.0))
+            # b2 now lives in b3's frame; moving that frame's origin by v moves the body by v in the world
             f2 = micro_body(H, cx, self.args["b"], (M2[0], ADD(M2[1], v)), self.args.get("E2", 1.0))
-            hit_f, w12_f, w21_f = H.contact_forces(f1, f2)
+            hit_f, w12_f, w21_f, det_f = H.contact_forces(f1, f2, return_details=True)
             tp = b1.tetrahedra_points
+
+            def total(d):
+                # world-frame contact forces from the details (rotated properly by transform_directions; does not go
+                # through _transform_wrenches, see K03) and the total contact area
+                if not d:
+                    return [0.0, 0.0, 0.0, 0.0]
+                fs = d["contact_forces"]
+                return [sum(f[k] for f in fs) for k in range(3)] + [sum(list(d["contact_areas"]))]
             out = {"hit": bool(hit3), "w12": w12_3, "w21": w21_3, "hit_f": bool(hit_f), "w12f": w12_f, "w21f": w21_f,
-                   "com": b1.com, "tp": tp}
+                   "tot": total(det3_), "tot_f": total(det_f), "com": b1.com, "tp": tp}
         elif mode == "broad":
             from distance3d.hydroelastic_contact._interface import find_contact_surface
             cs_b = find_contact_surface(b1, b2, use_aabb_trees=False)
@@ -183,9 +195,8 @@ class MicroPipeline(Scenario):
         tolf = 1e-6
         if mode == "history":
             ob.require("history_same_flag_as_fresh", exact=(out["hit"] == out["hit_f"]))
-            ob.require("history_same_wrenches_as_fresh",
-                       exact=AND(vec_eq(list(out["w12"]), list(out["w12f"])), vec_eq(list(out["w21"]), list(out["w21f"]))),
-                       tol=AND(vec_close(list(out["w12"]), list(out["w12f"]), tolf), vec_close(list(out["w21"]), list(out["w21f"]), tolf)))
+            ob.require("history_same_total_force_and_area_as_fresh", exact=vec_eq(out["tot"], out["tot_f"]),
+                       tol=vec_close(out["tot"], out["tot_f"], tolf))
             # cached centre of mass equals the direct volume-weighted centroid of the current tetrahedra
             tp = out["tp"]
             acc, tot = [0.0, 0.0, 0.0], 0.0
